@@ -105,13 +105,16 @@ class SshProtocolMessage(ParsableBase):
             raise InvalidValue(parser['protocol'], SshProtocolMessage, 'protocol')
 
         parser.parse_string('separator', '-')
-        parser.parse_parsable('protocol_version', SshProtocolVersion)
+        try:
+            parser.parse_parsable('protocol_version', SshProtocolVersion)
+        except ValueError as e:
+            six.raise_from(InvalidValue(parser.unparsed, SshProtocolMessage, 'protocol_version'), e)
         parser.parse_string('separator', '-')
 
         parser.parse_string_until_separator('software_version_and_comment', '\n')
         software_version_and_comment = parser['software_version_and_comment'].split(' ')
 
-        if software_version_and_comment[-1][-1] == '\r':
+        if software_version_and_comment[-1].endswith('\r'):
             software_version_and_comment[-1] = software_version_and_comment[-1][:-1]
 
         software_version_parser = ParserText(six.ensure_binary(software_version_and_comment[0], 'ascii'))
